@@ -79,6 +79,21 @@ fn main() {
             _ => Tier::Quick,
         },
     };
+    // A time budget hit is "inconclusive" (exit 2), never a verdict.
+    let max_secs: u64 = std::env::var("VERIF_MAX_SECS")
+        .ok()
+        .and_then(|s| s.parse().ok())
+        .unwrap_or(match tier {
+            Tier::Quick => 1500,
+            Tier::Thorough => 4 * 3600,
+        });
+    let idc = id.clone();
+    std::thread::spawn(move || {
+        std::thread::sleep(std::time::Duration::from_secs(max_secs));
+        println!("INFRA-ERROR: {} did not finish within its time budget of {} s: inconclusive", idc, max_secs);
+        eprintln!("INFRA-ERROR: {} did not finish within its time budget of {} s: inconclusive", idc, max_secs);
+        std::process::exit(2);
+    });
     match id.as_str() {
         "C11" => std::process::exit(run_c11(tier)),
         "C12" => std::process::exit(engb::run_c12(tier)),
